@@ -255,7 +255,7 @@ def run(prop, replay_file=None):
         rng = random.Random(sd)
         nbeh = nup = 0
         distinct = set()
-        per_worker = 4 if t == "quick" else 40
+        per_worker = 4 if t == "quick" else 150
         for k, (ename, emap) in enumerate(sorted(ENTRY_MAPS.items())):
             simdir = os.path.join(w, "sim%d" % k)
             os.mkdir(simdir)
@@ -285,7 +285,7 @@ def run(prop, replay_file=None):
                                     final_signals=states[-1]["sig"]))
             shutil.rmtree(simdir, ignore_errors=True)
         # in-backtest cadence: real sessions with real signal objects, against the Session model
-        nsess, nobs = session_cadence(rep, w, rng, 60 if t == "quick" else 800, sd)
+        nsess, nobs = session_cadence(rep, w, rng, 60 if t == "quick" else 2500, sd)
         nup += nobs
         nbeh += nsess
         rep.cov["sessions_with_signals"] = nsess
